@@ -109,8 +109,11 @@ class Check:
                 rec["verdict"] = VIOLATION
                 rec["detail"] = detail
                 extra = r[2] if isinstance(r, tuple) and len(r) > 2 else None
+                cons = construct or law
+                if isinstance(extra, dict) and extra.get("key"):
+                    cons = "%s :: %s" % (cons, extra["key"])
                 self.finding(rule, module or site.split("::")[0], function or site.split("::")[-1],
-                             construct or law, detail, line=line, extra=extra)
+                             cons, detail, line=line, extra=extra)
         except (AnalysisError, Undecided, TooBig) as e:
             rec["verdict"] = UNKNOWN
             rec["detail"] = "%s: %s" % (type(e).__name__, e)
